@@ -44,7 +44,8 @@ def one(sid):
     try:
         patch = os.path.join(src, "patch_ported.diff") if os.path.exists(os.path.join(src, "patch_ported.diff")) else os.path.join(src, "patch.diff")
         out["ported"] = patch.endswith("patch_ported.diff")
-        env = dict(os.environ, PYTHONPATH=wt)
+        # .deps carries networkx (needed by rockit's SplineMethod, absent from /venv) next to hypothesis
+        env = dict(os.environ, PYTHONPATH=wt + ":" + os.path.join(HERE, ".deps"))
         env.pop("ROCKIT_VERIF", None)
         demo = os.path.join(src, "demo.py")
         rc0 = subprocess.run(["/venv/bin/python", demo], cwd=wt, env=env, capture_output=True, text=True, timeout=3000)
@@ -102,8 +103,8 @@ def one(sid):
             "confirmed": {
                 "demo_exit_status_without_change": out["demo_clean_rc"], "demo_exit_status_with_change": out["demo_patched_rc"],
                 "baseline_tests_with_change": out["tests"],
-                "what_was_run": ["git -C /repo worktree add --detach /tmp/sf/%s HEAD" % sid, "PYTHONPATH=/tmp/sf/%s /venv/bin/python demo.py   (exit 0)" % sid,
-                                 "git -C /tmp/sf/%s apply patch.diff" % sid, "PYTHONPATH=/tmp/sf/%s /venv/bin/python demo.py   (exit non-zero)" % sid,
+                "what_was_run": ["git -C /repo worktree add --detach /tmp/sf/%s HEAD" % sid, "PYTHONPATH=/tmp/sf/%s:/verif/.deps /venv/bin/python demo.py   (exit 0)" % sid,
+                                 "git -C /tmp/sf/%s apply patch.diff" % sid, "PYTHONPATH=/tmp/sf/%s:/verif/.deps /venv/bin/python demo.py   (exit non-zero)" % sid,
                                  "cd /tmp/sf/%s && /venv/bin/python -m pytest -q -p no:cacheprovider --timeout=900 --continue-on-collection-errors --junitxml=...  (all BASELINE stable_pass tests pass)" % sid,
                                  "VERIF_REPO=/tmp/sf/%s VERIF_SEED=%s ./check <ID> --tier quick --no-evidence" % (sid, a.seed),
                                  "git -C /repo worktree remove --force /tmp/sf/%s" % sid]},
